@@ -64,4 +64,4 @@ func verifPermMaps(on bool)
 func verifFreeze(x interface{}, label string)
 func verifUnfreeze()
 func verifGo(f func()) // runs f as a goroutine (engine: a scheduled thread)
-func verifJoin()   // waits for every goroutine started with verifGo
+func verifJoin()       // waits for every goroutine started with verifGo
